@@ -112,7 +112,7 @@ def run_verus_unit(u, cfg, repo, tier, work):
         obl.append(o)
     # errors that could not be mapped to a function with a breakdown entry
     for fn, es in errs_by_fn.items():
-        if fn in seen or any(fn and s.endswith("::" + fn) or s == fn for s in seen):
+        if fn in seen or any(fn and (s.endswith("::" + fn) or s == fn or s.split("::")[-1] == fn.split("::")[-1]) for s in seen):
             continue
         if fn and (fn.split("::")[-1]).startswith("must_fail_"):
             continue
